@@ -55,3 +55,31 @@ Proof.
   split; [repeat constructor; cbn [In]; intros H; repeat (destruct H as [H|H]; [discriminate H|]); exact H|].
   split; [vm_compute; discriminate|vm_compute; reflexivity].
 Qed.
+
+(* ------------------------------------------------------------------ register against balance *)
+From Coq Require Import QArith.
+From Knut Require Import Proofs.DecValue Proofs.LedgerProofs Proofs.RegisterBalance.
+
+(* register -v CHF -c -a -d --months  /  balance -v CHF --months --diff --close=false *)
+Definition rw_cfg_c : register_cfg :=
+  mkRegisterCfg 0 (w_d0 + 90) Monthly 0 (Some w_chf) true true true false [] [] [] [] [] true.
+Definition rw_bcfg : balance_cfg :=
+  mkBalanceCfg 0 (w_d0 + 90) Monthly 0 true false (Some w_chf) true [] [] [] [] [] true.
+Definition rw_col : Z := Eval vm_compute in Date.of_civil 2020 1 31.
+
+Lemma rw_agree : cfgs_agree rw_cfg_c rw_bcfg.
+Proof. constructor; reflexivity. Qed.
+
+Lemma rw_matches :
+  exists rr rb part,
+    register_report rw_cfg_c w_journal = COk rr /\ balance_report rw_bcfg w_journal = COk (rb, part) /\
+    In rw_col (end_dates part) /\ rw_col <> 0%Z /\
+    (reg_rows_total rr rw_col w_A w_usd == rcell w_A (Some rw_col, Some w_usd) rb)%Q /\
+    ~ (reg_rows_total rr rw_col w_A w_usd == 0)%Q /\
+    (reg_rows_total rr rw_col w_I w_chf == rcell w_I (Some rw_col, Some w_chf) rb)%Q.
+Proof.
+  eexists. eexists. eexists.
+  split; [vm_compute; reflexivity|]. split; [vm_compute; reflexivity|].
+  split; [vm_compute; auto|]. split; [discriminate|].
+  split; [vm_compute; reflexivity|]. split; [vm_compute; discriminate|vm_compute; reflexivity].
+Qed.
